@@ -105,7 +105,7 @@ def load_known(pid):
 def do_replay_file(path):
     data = json.load(open(path))
     with tempfile.TemporaryDirectory(prefix="vfreplay", dir="/var/tmp") as td:
-        r = plain_replay([dict(module=data["module"], condition=data["condition"], args=data["args"], check_pre=True)], td)[0]
+        r = plain_replay([dict(module=data["module"], condition=data["condition"], args=data["args"], check_pre=True)], td, VF_TIER=data.get("tier", "thorough"))[0]
     print(json.dumps(r, indent=1))
     if r.get("ok"):
         print("REPLAY property=%s condition=%s: holds on this input" % (data.get("property"), data["condition"]))
@@ -164,7 +164,7 @@ def main():
                for c in conds if c.witness is not None and c.kind != "concrete"]
         dry_resp = {}
         if dry:
-            for r in plain_replay(dry, td, "dry"):
+            for r in plain_replay(dry, td, "dry", VF_TIER=tier):
                 dry_resp[r["condition"]] = r
         # ---- 2. the solver runs
         jobs = []
@@ -191,7 +191,7 @@ def main():
         for c in conds:
             if c.kind == "concrete":
                 reqs = [dict(module=module, condition=c.name, args=x) for x in c.cases()]
-                for r in plain_replay(reqs, td, "named-" + c.name):
+                for r in plain_replay(reqs, td, "named-" + c.name, VF_TIER=tier):
                     named.append(r)
         # ---- 4. replay counterexamples, classify
         n_replay = 0
@@ -233,9 +233,9 @@ def main():
                         harness_errors.append("%s: counterexample could not be serialised: %s" % (c.name, r.get("messages")))
                         continue
                     n_replay += 1
-                    rp = plain_replay([dict(module=module, condition=c.name, args=cexargs, check_pre=True)], td, "cex%d" % n_replay)[0]
+                    rp = plain_replay([dict(module=module, condition=c.name, args=cexargs, check_pre=True)], td, "cex%d" % n_replay, VF_TIER=tier)[0]
                     path = os.path.join(replay_dir, "%s-%s-%d.json" % (c.name, tier, n_replay))
-                    json.dump({"property": pid, "module": module, "condition": c.name, "args": cexargs,
+                    json.dump({"property": pid, "module": module, "condition": c.name, "args": cexargs, "tier": tier,
                                "engine_messages": r.get("messages"), "plain_replay": rp}, open(path, "w"), indent=1)
                     if rp.get("ok") or rp.get("harness_error") or rp.get("pre_ok") is False:
                         harness_errors.append("%s: counterexample does not reproduce on plain CPython (engine/model artefact): %s" % (c.name, path))
@@ -266,7 +266,8 @@ def main():
         # 'known' witnesses run with every exclusion predicate switched off (they must show the defect itself);
         # 'fixed' witnesses are plain regression cases of the normal check (exclusions of OTHER findings stay on)
         kres = [None] * len(known)
-        for status, env in (("known", {"VF_NO_EXCLUSIONS": "1"}), ("fixed", {})):
+        # (recorded witnesses are replayed under the thorough tier's preconditions, which contain the quick tier's)
+        for status, env in (("known", {"VF_NO_EXCLUSIONS": "1", "VF_TIER": "thorough"}), ("fixed", {"VF_TIER": "thorough"})):
             idx = [i for i, k in enumerate(known) if k["status"] == status]
             if idx:
                 rs = plain_replay([kreqs[i] for i in idx], td, "known-" + status, **env)
